@@ -37,7 +37,7 @@ ASSUMPTIONS = [
 ]
 EXHAUSTIVE = "all 720 (section order x ~A position) layouts; every title spelling of every section kind"
 REQUIRED = ["reads", "tags_checked", "cells_checked", "layouts_data_not_last", "lowercase_title_cases", "steering_name_cases",
-            "custom_sections_checked", "other_lines_checked", "other_sections_with_blank_lines"]
+            "custom_sections_checked", "other_lines_checked", "other_sections_with_blank_lines", "header_only_reads"]
 SOFT_DEADLINE = {"quick": 90, "thorough": 1200}
 LEVEL_TEXT = ("Exploration with an exactly-once conservation oracle over unique tags and coordinate-carrying cells; the "
               "section-order space (720 layouts) and the documented title spellings are enumerated completely.")
@@ -164,8 +164,11 @@ def run_case(case, ctx):
           ("steering-name-in-%s:%s" % (case["steer"][1], STEER[case["steer"][0]][0].upper())) if case.get("steer") else "plain"
     detail = {"text": text, "engine": case["engine"], "order": kinds_in_order, "titles": [s["title"] for s in secs]}
     V = ctx.violation
+    header_only = case["seed"] % 5 == 0
+    if header_only:
+        ctx.count("header_only_reads")
     try:
-        las = lasio.read(text, engine=case["engine"], mnemonic_case="preserve")
+        las = lasio.read(text, engine=case["engine"], mnemonic_case="preserve", ignore_data=header_only)
     except Exception as e:
         V("read-raised:%s:%s" % (type(e).__name__, cls), "read raised %r" % (e,), detail)
         return
@@ -226,6 +229,9 @@ def run_case(case, ctx):
     if extra_keys:
         V("unexpected-section:%s" % cls, "sections %r were created" % extra_keys, detail)
     # ---- data -----------------------------------------------------------------------------------------------
+    if header_only:
+        ctx.case_done([kinds_in_order, "header-only", case.get("steer"), case["engine"]], nontrivial=len(secs) >= 4)
+        return
     a = next(s for s in secs if s["kind"] == "A")
     rows = a["rows"]
     r, c = len(rows), len(rows[0])
